@@ -230,6 +230,9 @@ type runResult struct {
 	polls    int64
 	returned bool
 	spanErr  string
+	// overAtCancel: when the host cancelled, no task of the program was alive any more (VM: every core's
+	// goroutine had ended) - the program "finished first"
+	overAtCancel bool
 }
 
 // c10Exec runs one workload under one cancellation fault.
@@ -246,9 +249,25 @@ func c10Exec(t *testing.T, spec RunSpec, cancelAt int64, deadline time.Duration,
 	rr := &runResult{}
 	ctx := NewCtx()
 	out := &Out{}
+	coresStarted := false
 	res := simrt.Run(t, simConfig(spec.Sim), simSource(spec), func(s *simrt.Sim) {
 		ctx.OnCancel = func() {
 			s.Probe("cancel-fired")
+			if backend == 0 {
+				alive := 0
+				if s.CallerIsProgram() {
+					alive++ // the cancel fires inside a poll of one of the program's own tasks
+				}
+				for _, o := range s.Others() {
+					if !o.Host && o.State != "panicked" {
+						alive++
+					}
+				}
+				if alive == 0 && coresStarted {
+					rr.overAtCancel = true
+					s.Probe("cancel-after-the-program-was-over-but-before-wait-returned")
+				}
+			}
 			if ctx.CancelAt > 0 && ctx.Polls() == ctx.CancelAt {
 				s.Fault("cancel-at-kth-poll")
 			} else {
@@ -289,6 +308,7 @@ func c10Exec(t *testing.T, spec RunSpec, cancelAt int64, deadline time.Duration,
 			env.boot()
 			startCanceller()
 			env.vm.SpawnAsync(runtime.MainFn(), nil, nil, nil)
+			coresStarted = true
 			num, i := env.vm.Wait()
 			rr.out = classify(num, i)
 			if i != nil {
@@ -381,6 +401,7 @@ type c10Ref struct {
 	out   outcome
 	lines []string
 	polls int64
+	simNs int64 // simulated duration of the reference run (default schedule, 1000 ns per step)
 	err   string
 }
 
@@ -411,6 +432,7 @@ func c10Reference(t *testing.T, spec RunSpec) *c10Ref {
 		return ref
 	}
 	ref.out, ref.lines, ref.polls = rr.out, rr.lines, rr.polls
+	ref.simNs = int64(res.SimTime)
 	return ref
 }
 
@@ -477,6 +499,11 @@ func runC10(t *testing.T, spec RunSpec) *Verdict {
 	case rr.out.Kind == "terminated":
 		if !cancelled {
 			v.fail(P, "wrong-result", "wait-result", cell, "terminated although the host never cancelled")
+			return v
+		}
+		if rr.overAtCancel && !w.endless && ref.out.Kind != "terminated" {
+			// "... or the program's own outcome if it finished first"
+			v.fail(P, "wrong-result", "own-outcome-if-finished-first", cell, fmt.Sprintf("every core had finished when the host cancelled, but the wait reported a termination instead of the program's own outcome (%s)", ref.out.Kind))
 			return v
 		}
 	case w.endless:
@@ -615,6 +642,21 @@ func planC10(t *testing.T, tier string, seed uint64) ([]RunSpec, error) {
 				for j := 0; j < nbig; j++ {
 					us := 1 + r.Intn(200000)
 					add(map[string]int{"deadline_us": us}, 1)
+				}
+				// ... and, for programs that end, around the instant at which they end under the default
+				// schedule: the cancel lands just before the end, or after it but before the wait has noticed
+				if !w.endless && ref.simNs > 0 {
+					for _, dUs := range []int{-3000, -500, -50, 20, 300, 1000, 2500, 4000, 4900, 6000} {
+						us := int(ref.simNs/1000) + dUs
+						if us <= 0 {
+							continue
+						}
+						s := base.clone()
+						s.Fault = map[string]int{"deadline_us": us}
+						s.Sim = SimParams{StepCostNs: 1000}
+						s.Choices = &simrt.Sparse{}
+						plan = append(plan, s)
+					}
 				}
 			}
 		}
